@@ -214,7 +214,7 @@ Definition refuted_shape (c : chain) (u : pupd) : Prop :=
 (* (1) origin ignored, the first declaration by key wins: <dependencies> g:a 1.0 and
    <dependencyManagement> g:a 2.0; the update addressed to the managed declaration rewrites the other one. *)
 Theorem pom_origin_ignored_refuted :
-  refuted_shape [ {| pm_path := [112]; pm_props := [];
+  refuted_shape [ {| pm_empty_mgmt := false; pm_path := [112]; pm_props := [];
                      pm_decls := [dcl [] kA [49;46;48]; dcl MANAGEMENT kA [50;46;48]] |} ]
                 {| pu_key := kA; pu_to := [50;46;53]; pu_pom := 0; pu_origin := MANAGEMENT |}.
 Proof. unfold refuted_shape. repeat split; try (vm_compute; reflexivity). eexists. split; vm_compute; reflexivity. Qed.
@@ -222,7 +222,7 @@ Print Assumptions pom_origin_ignored_refuted.
 
 (* (2) shared property: g:a and g:b both ${v}; updating g:a rewrites v and g:b follows. *)
 Theorem pom_shared_property_refuted :
-  refuted_shape [ {| pm_path := [112]; pm_props := [ {| pf_origin := []; pf_name := [118]; pf_val := [49;46;48] |} ];
+  refuted_shape [ {| pm_empty_mgmt := false; pm_path := [112]; pm_props := [ {| pf_origin := []; pf_name := [118]; pf_val := [49;46;48] |} ];
                      pm_decls := [dcl [] kA [36;123;118;125]; dcl [] kB [36;123;118;125]] |} ]
                 {| pu_key := kA; pu_to := [50;46;48]; pu_pom := 0; pu_origin := [] |}.
 Proof. unfold refuted_shape. repeat split; try (vm_compute; reflexivity). eexists. split; vm_compute; reflexivity. Qed.
@@ -231,20 +231,45 @@ Print Assumptions pom_shared_property_refuted.
 (* (3) the property in effect is defined in another pom: child g:a ${v}, v defined in the local parent only;
    the patch is filed under the child's <properties>, nothing changes, Write succeeds. *)
 Theorem pom_property_in_parent_refuted :
-  refuted_shape [ {| pm_path := [99]; pm_props := []; pm_decls := [dcl [] kA [36;123;118;125]] |};
-                  {| pm_path := [112]; pm_props := [ {| pf_origin := []; pf_name := [118]; pf_val := [49;46;48] |} ]; pm_decls := [] |} ]
+  refuted_shape [ {| pm_empty_mgmt := false; pm_path := [99]; pm_props := []; pm_decls := [dcl [] kA [36;123;118;125]] |};
+                  {| pm_empty_mgmt := false; pm_path := [112]; pm_props := [ {| pf_origin := []; pf_name := [118]; pf_val := [49;46;48] |} ]; pm_decls := [] |} ]
                 {| pu_key := kA; pu_to := [49;46;49]; pu_pom := 0; pu_origin := [] |}.
 Proof. unfold refuted_shape. repeat split; try (vm_compute; reflexivity). eexists. split; vm_compute; reflexivity. Qed.
 Print Assumptions pom_property_in_parent_refuted.
+
+(* Added requirements. An update whose key no declaration of the chain carries with a version (what the
+   override strategy emits for a transitive package: origin management) and that addresses no declaration:
+   Write succeeds, the MAIN pom gains the project-level "management" declaration (key, VersionTo) -- whether the
+   project had a dependencyManagement section, had none, had one only inside a profile or only in the parent --
+   nothing else changes, and the spec with added entries holds: every other effective version is unchanged and
+   the added requirement stands for VersionTo. *)
+Theorem pom_decl_added_management_present : forall c u,
+  d_add c u = true ->
+  write_chain c [u] = Some (add_main c u) /\ decl_spec_all c [u] (add_main c u) = true /\
+  exists p r p', c = p :: r /\ add_main c u = p' :: r /\ In (added_decl (pu_key u, pu_to u)) (pm_decls p').
+Proof. exact pom_decl_added_management_present_lemma. Qed.
+Print Assumptions pom_decl_added_management_present.
+
+(* ... refuted without the condition on the empty section: the project has
+   <dependencyManagement><dependencies/></dependencyManagement>; the added <dependency> is written AFTER the
+   closed <dependencies/> element, no reader lists it, Write returns nil. *)
+Theorem pom_added_entry_lost_refuted :
+  exists c u c', is_add c u = true /\ write_chain c [u] = Some c' /\ decl_spec_all c [u] c' = false /\ c' = c.
+Proof.
+  exists [ {| pm_empty_mgmt := true; pm_path := [112]; pm_props := []; pm_decls := [dcl [] kA [49;46;48]] |} ],
+         {| pu_key := kB; pu_to := [50;46;48]; pu_pom := 999; pu_origin := [] |}.
+  eexists. repeat split; vm_compute; reflexivity.
+Qed.
+Print Assumptions pom_added_entry_lost_refuted.
 
 (* non-vacuity of D_lit: a child and its parent; the key g:b is declared once, in profile p1 of the PARENT
    (the case the separator fix repaired), g:a once in the child's dependencyManagement (and, without a
    version, in its dependencies); both are updated *)
 Definition ex_chain : chain :=
-  [ {| pm_path := [99]; pm_props := [ {| pf_origin := []; pf_name := [118]; pf_val := [55] |} ];
+  [ {| pm_empty_mgmt := false; pm_path := [99]; pm_props := [ {| pf_origin := []; pf_name := [118]; pf_val := [55] |} ];
        pm_decls := [dcl PARENT [103;58;112;124;112;111;109;124] [49]; dcl [] kA []; dcl MANAGEMENT kA [49;46;48];
                     dcl [] [103;58;99;124;106;97;114;124] [36;123;118;125]] |};
-    {| pm_path := [112]; pm_props := [];
+    {| pm_empty_mgmt := false; pm_path := [112]; pm_props := [];
        pm_decls := [dcl (PROFILE ++ [64;112;49]) kB [52;46;49;50]] |} ].
 Definition ex_pups : list pupd :=
   [ {| pu_key := kB; pu_to := [52;46;49;51]; pu_pom := 1; pu_origin := PROFILE ++ [64;112;49] |};
@@ -261,7 +286,7 @@ Proof. split; [vm_compute; reflexivity|]. eexists. split; [vm_compute; reflexivi
 (* non-vacuity of D_prop: the same property name v in the project properties and in two profiles, the
    dependency of profile p1 uses 1.${v}-jre and is updated: only p1's v changes *)
 Definition ex_chain2 : chain :=
-  [ {| pm_path := [99];
+  [ {| pm_empty_mgmt := false; pm_path := [99];
        pm_props := [ {| pf_origin := []; pf_name := [118]; pf_val := [48] |};
                      {| pf_origin := PROFILE ++ [64;112;49]; pf_name := [118]; pf_val := [53] |};
                      {| pf_origin := PROFILE ++ [64;112;50]; pf_name := [118]; pf_val := [55] |} ];
@@ -277,3 +302,16 @@ Example pom_decl_property_example :
               map (fun x => snd x) (eff_all c') = [[48]; [49;46;57;45;106;114;101]; [55]] /\
               map (fun x => snd x) (eff_all ex_chain2) = [[48]; [49;46;53;45;106;114;101]; [55]]).
 Proof. split; [vm_compute; reflexivity|]. eexists. split; [vm_compute; reflexivity|]. split; vm_compute; reflexivity. Qed.
+
+(* non-vacuity of D_add: the only dependencyManagement of the chain sits inside profile p1 *)
+Definition ex_chain3 : chain :=
+  [ {| pm_empty_mgmt := false; pm_path := [99]; pm_props := [];
+       pm_decls := [dcl [] kA [49;46;48]; dcl (PROFILE ++ [64;112;49] ++ AT_MANAGEMENT) kB [50;46;48]] |} ].
+Definition ex_pupd3 : pupd :=
+  {| pu_key := [103;58;110;124;106;97;114;124]; pu_to := [51;46;49]; pu_pom := 999; pu_origin := [] |}.
+Example pom_decl_added_example :
+  d_add ex_chain3 ex_pupd3 = true /\
+  option_map eff_all (write_chain ex_chain3 [ex_pupd3]) =
+  Some [(0%nat, [], kA, [49;46;48]); (0%nat, MANAGEMENT, [103;58;110;124;106;97;114;124], [51;46;49]);
+        (0%nat, PROFILE ++ [64;112;49] ++ AT_MANAGEMENT, kB, [50;46;48])].
+Proof. split; vm_compute; reflexivity. Qed.
